@@ -46,6 +46,26 @@ def run(R):
             ok = fl is not None and any(norm(x) == '%s.flags' % rp for x in ast.walk(fl))
             c.check(ok, f, k, 'the re-compiled pattern is given the flags of the original (%s.flags)' % rp,
                     witness=norm(k), kind='flow', tag='flags-kept:' + norm(k.args[0])[:20])
+            if ok:
+                # bit-level truth table: every flag of the original survives; the UNICODE bit (illegal for bytes patterns) may only be CLEARED
+                to_bytes = isinstance(k.args[0], ast.Call) and callee_last(k.args[0]) == 'encode'
+                bad = None
+                named = sorted(set(x.attr for x in ast.walk(fl) if isinstance(x, ast.Attribute) and isinstance(x.value, ast.Name) and x.value.id == 're'
+                                   and x.attr not in ('UNICODE', 'U')))
+                for bit in ['UNICODE', 'OTHER'] + named:
+                    for inp in (0, 1):
+                        try:
+                            out = flag_bit(fl, rp, bit, inp)
+                        except ValueError as e:
+                            raise AnalysisError('C20-D3: flag expression not understood: %s' % e)
+                        if bit not in ('UNICODE',) and out != inp:
+                            bad = 'a flag of the original pattern that is %s comes out %s' % ('set' if inp else 'clear', 'set' if out else 'clear')
+                        if bit == 'UNICODE' and to_bytes and out != 0:
+                            bad = 'for a bytes pattern the UNICODE bit must end up clear, but an original with UNICODE %s yields it set (re.compile then raises ValueError, e.g. for a str pattern compiled with re.ASCII)' % ('set' if inp else 'clear')
+                        if bit == 'UNICODE' and not to_bytes and out not in (inp, 1):
+                            bad = 'the UNICODE bit of the original is lost'
+                c.check(bad is None, f, k, 'bit by bit the new flags equal the original ones (UNICODE cleared, never toggled, when the target is a bytes pattern)',
+                        witness=('%s: %s' % (norm(fl), bad)) if bad else None, kind='alg', tag='flags-bits:' + norm(k.args[0])[:20])
             a = k.args[0]
             okc = isinstance(a, ast.Call) and callee_last(a) in ('encode', 'decode') and a.args and is_const(a.args[0], 'utf-8')
             c.check(okc, f, k, 'the pattern text is converted with utf-8', witness=norm(a), kind='ast', tag='utf8:' + norm(a)[:20])
@@ -74,6 +94,32 @@ def run(R):
         ks = [k for k in calls_in(f.node) if dotted(k.func) == 're.compile']
         ok = len(ks) == 1 and len(ks[0].args) == 2 and norm(ks[0].args[1]) == 're.DOTALL' and isinstance(ks[0].args[0], ast.Call) and callee_last(ks[0].args[0]) == '_coerce_expect_string'
         c.check(ok, f, ks[0] if ks else None, 'read(n) compiles its .{n} pattern with DOTALL (newlines count as characters), coerced to the object\'s string type', witness=norm(ks[0]) if ks else '', kind='ast', tag='read-dotall')
+
+
+def flag_bit(e, rp, bit, inp):
+    """value of one bit of a flags expression given that bit of <rp>.flags is *inp*"""
+    t = norm(e)
+    if t == '%s.flags' % rp:
+        return inp
+    if isinstance(e, ast.Attribute) and isinstance(e.value, ast.Name) and e.value.id == 're':
+        if e.attr in ('UNICODE', 'U'):
+            return 1 if bit == 'UNICODE' else 0
+        return 1 if bit == e.attr else 0       # a named flag is its own bit
+    if isinstance(e, ast.Constant) and isinstance(e.value, int):
+        if e.value == 0:
+            return 0
+        raise ValueError('numeric flag constant %r' % e.value)
+    if isinstance(e, ast.UnaryOp) and isinstance(e.op, ast.Invert):
+        return 1 - flag_bit(e.operand, rp, bit, inp)
+    if isinstance(e, ast.BinOp):
+        a, b = flag_bit(e.left, rp, bit, inp), flag_bit(e.right, rp, bit, inp)
+        if isinstance(e.op, ast.BitAnd):
+            return a & b
+        if isinstance(e.op, ast.BitOr):
+            return a | b
+        if isinstance(e.op, ast.BitXor):
+            return a ^ b
+    raise ValueError(t)
 
 
 def classify_test(t, pv):
@@ -241,6 +287,8 @@ MUTANTS = [
     ('no-dotall', 'spawnbase', "        compile_flags = re.DOTALL\n", "        compile_flags = 0\n", 'D2'),
     ('flags-not-used', 'spawnbase', "compiled_pattern_list.append(re.compile(p, compile_flags))", "compiled_pattern_list.append(re.compile(p, re.DOTALL))", 'D2'),
     ('coerce-re-drops-flags', 'spawnbase', "            return re.compile(p.decode('utf-8'), r.flags)", "            return re.compile(p.decode('utf-8'))", 'D3'),
+    ('coerce-re-xor-unicode', 'spawnbase', "            return re.compile(p.encode('utf-8'), r.flags & ~re.UNICODE)", "            return re.compile(p.encode('utf-8'), r.flags ^ re.UNICODE)", 'D3'),
+    ('coerce-re-or-ignorecase', 'spawnbase', "            return re.compile(p.decode('utf-8'), r.flags)", "            return re.compile(p.decode('utf-8'), r.flags | re.IGNORECASE)", 'D3'),
     ('coerce-re-latin1', 'spawnbase', "            return re.compile(p.encode('utf-8'), r.flags & ~re.UNICODE)", "            return re.compile(p.encode('latin-1'), r.flags & ~re.UNICODE)", 'D3'),
     ('exact-validate-late', 'spawnbase', "        pattern_list = [prepare_pattern(p) for p in pattern_list]\n\n        exp = Expecter(self, searcher_string(pattern_list), searchwindowsize)", "        exp = Expecter(self, searcher_string([prepare_pattern(p) for p in pattern_list]), searchwindowsize)", 'D4'),
     ('exact-helper-falls', 'spawnbase', "                return self._coerce_expect_string(pattern)\n            self._pattern_type_err(pattern)", "                return self._coerce_expect_string(pattern)\n            return pattern", 'D1'),
